@@ -79,6 +79,14 @@ func (m *Model) field(n *types.Named, role string, prefer string, pred func(t ty
 		f := st.Field(i)
 		if pred(f.Type(), typeStr(f.Type())) {
 			cands = append(cands, f)
+			continue
+		}
+		// a named non-struct type of the same package standing for the type looked for
+		// (`type reservations map[string]context.CancelFunc`, with methods)
+		if nt, ok := types.Unalias(f.Type()).(*types.Named); ok && nt.Obj().Pkg() == n.Obj().Pkg() {
+			if _, isStruct := nt.Underlying().(*types.Struct); !isStruct && pred(nt.Underlying(), typeStr(nt.Underlying())) {
+				cands = append(cands, f)
+			}
 		}
 	}
 	if len(cands) == 1 {
@@ -424,7 +432,26 @@ func LoadsField(v ssa.Value, f *types.Var) bool {
 		return false
 	}
 	p, ok := facts.LoadPath(v)
-	return ok && p.Field == f
+	if ok && p.Field == f {
+		return true
+	}
+	// the field's value as a method of its own type sees it: when the field has a named
+	// non-struct type with methods (`type reservations map[string]context.CancelFunc`), the
+	// receiver of such a method is the table
+	if par, isPar := v.(*ssa.Parameter); isPar {
+		nt, isNamed := types.Unalias(f.Type()).(*types.Named)
+		if !isNamed {
+			return false
+		}
+		if _, isStruct := nt.Underlying().(*types.Struct); isStruct {
+			return false
+		}
+		fn := par.Parent()
+		if fn != nil && fn.Signature.Recv() != nil && len(fn.Params) > 0 && fn.Params[0] == par && types.Identical(types.Unalias(par.Type()), nt) {
+			return true
+		}
+	}
+	return false
 }
 
 // Func finds a package-level function or method by name: "encode",
